@@ -62,6 +62,9 @@ def alt_pool(rng):
         'curly': {'type': 'relative_address', 'use_curly_braces': True, 'argument': {'size': 8, 'byte_align': True}, 'bytecode': bc()},
         'predec_sp': {'type': 'register', 'register': 'sp', 'bytecode': bc(), 'decorator': {'type': 'minus', 'is_prefix': True}},
         'postinc_a': {'type': 'register', 'register': 'a', 'bytecode': bc(), 'decorator': {'type': 'plus', 'is_prefix': False}},
+        # bracketed forms with a decorator in front of / behind the brackets
+        'predec_ind_sp': {'type': 'indirect_register', 'register': 'sp', 'bytecode': bc(), 'decorator': {'type': 'minus_minus', 'is_prefix': True}},
+        'postinc_ind_a': {'type': 'indirect_register', 'register': 'a', 'bytecode': bc(), 'decorator': {'type': 'plus_plus', 'is_prefix': False}},
         'rel': {'type': 'relative_address', 'argument': {'size': 8, 'byte_align': True}, 'bytecode': bc()},
         # numeric forms whose value has to be a valid address (a register name is no more an address than it is a number)
         'num_va': {'type': 'numeric', 'argument': {'size': 16, 'byte_align': True, 'valid_address': True}, 'bytecode': bc()},
@@ -87,6 +90,7 @@ def operand_texts(rng):
     big = rng.choice([16, 17, 99, 200, 255])
     lab = rng.choice(sorted(LABELS))
     sp = rng.choice(['', ' '])
+    rq = rng.choice(['a', 'a', r])
     return [
         {'cls': 'reg', 'r': r, 'text': r if rng.random() < 0.7 else r.upper()},
         {'cls': 'ind', 'r': r, 'text': f'[{sp}{r}{sp}]'},
@@ -115,6 +119,8 @@ def operand_texts(rng):
         {'cls': 'num', 'e': LABELS[lab] + 1, 'text': f'{lab}+1', 'lab': lab, 'expr': True},
         {'cls': 'dreg', 'r': r, 'dec': ('minus', True), 'text': f'-{r}'},        # a decorated register, or a negated register "value"
         {'cls': 'dreg', 'r': r, 'dec': ('plus', False), 'text': f'{r}+'},
+        {'cls': 'dind', 'r': 'sp', 'dec': ('minus_minus', True), 'text': f'--[{sp}sp{sp}]'},
+        {'cls': 'dind', 'r': rq, 'dec': ('plus_plus', False), 'text': f'[{rq}]++'},
         {'cls': 'regexpr', 'r': r, 'text': rng.choice([f'1+{r}', f'- {r} + 1', f'LSB({r})', f'BYTE0({r})', f'({r})', f'-({r})', f'{r}*2',
                                                         f'BYTE1(-{r})', f'2 - -{r}', f'({r}+1)', f'lab_k+{r}'])},
         {'cls': 'curly', 'e': e, 'text': '{' + f'{sp}{e}{sp}' + '}'},
@@ -131,6 +137,9 @@ def accepts(name, conf, o, addr):
             return {'id': name} if c == 'dreg' and o['r'] == conf['register'] and o['dec'] == (dec['type'], dec['is_prefix']) else None
         return {'id': name} if c == 'reg' and o['r'] == conf['register'] else None
     if t == 'indirect_register':
+        dec = conf.get('decorator')
+        if dec or c == 'dind':
+            return {'id': name, 'val': None} if dec and c == 'dind' and o['r'] == conf['register'] and o['dec'] == (dec['type'], dec['is_prefix']) else None
         if c == 'ind' and o['r'] == conf['register']:
             return {'id': name, 'val': None}
         if c == 'indoff' and o['r'] == conf['register'] and 'offset' in conf:
@@ -221,12 +230,13 @@ class C13(core.Check):
         'reject:register-inside-expression', 'reject:no-variant-takes-count', 'mnemonic:upper', 'mnemonic:mixed',
         'chosen:variant>=2', 'chosen:specific', 'expect:ACCEPT', 'expect:REJECT',
         'later-candidate-after-nonaccepting-earlier', 'amb:disallowed-pair-mirrored-is-allowed', 'amb:two-specific-entries-accept',
-        'amb:key-vs-relative-address', 'amb:decorated-register-vs-numeric', 'amb:implied-operand-entry-vs-shorter-variant',
+        'amb:key-vs-relative-address', 'amb:decorated-register-vs-numeric', 'chosen:decorated-bracketed-register', 'chosen:decorated-bracketed-register/decorator-in-front', 'amb:implied-operand-entry-vs-shorter-variant',
         'amb:out-of-range-literal-with-later-accepting-candidate', 'primer:earlier-statement-took-a-later-variant', 'amb:listed-combination-named-like-the-disallowed-pair', 'amb:index-key-vs-index-expression', 'amb:register-that-reads-as-a-number',
         'amb:register-vs-numeric-enumeration', 'amb:register-vs-numeric-enumeration-with-argument-table-only',
         'amb:key-that-stands-for-0-vs-label', 'operator-inside-bracketed-or-indexed-form', 'reject:empty-operand-beside-a-comma', 'definition-shared-by-anchor-and-alias', 'chosen:variant-behind-one-without-operands']}
 
-    def gen_isa(self, rng, force_empty=False, force_dp=False, force_ne=False, force_idx=False):
+    def gen_isa(self, rng, force_empty=False, force_dp=False, force_ne=False, force_idx=False, force_kr=False):
+        self._kr = False
         self._dp_pair = None
         self._ne_regs = None
         self._opless_at = None
@@ -295,6 +305,19 @@ class C13(core.Check):
             variants = [{'bytecode': {'value': 0xA0, 'size': 8}, 'operands': {'count': 1, 'operand_sets': {'list': [sn_]}}}]
             nv = rng.randrange(0, 2)
             self._idx = True
+        if force_kr and not variants:
+            # an enumeration next to a plain relative address in one operand set: a key belongs to the enumeration
+            sn_ = sorted(sets)[0]
+            s0 = sets[sn_]['operand_values']
+            for q in [q for q in s0 if q in EXPR_LIKE or q == 'key']:
+                del s0[q]
+            new_ = [('rel', pool['rel']), ('key', pool['key'])] if rng.random() < 0.5 else [('key', pool['key']), ('rel', pool['rel'])]
+            items_ = list(s0.items())
+            at_ = rng.randrange(0, len(items_) + 1)
+            sets[sn_]['operand_values'] = dict(items_[:at_] + new_ + items_[at_:])
+            variants = [{'bytecode': {'value': 0xA0, 'size': 8}, 'operands': {'count': 1, 'operand_sets': {'list': [sn_]}}}]
+            nv = rng.randrange(0, 2)
+            self._kr = True
         if force_ne and not variants:
             # a numeric enumeration next to plain registers in one operand set: the register text belongs to the register
             sn_ = sorted(sets)[0]
@@ -442,12 +465,12 @@ class C13(core.Check):
         return 'ACCEPT', chosen[1], info
 
     def cases(self, tier, seed):
-        n_pre = 500
-        n = 900 if tier == 'quick' else 15000
+        n_pre = 800
+        n = 700 if tier == 'quick' else 15000
         for i in range(n_pre + n):
             rng = core.rng_for(0 if i < n_pre else seed, self.pid, i)
             isa = self.gen_isa(rng, force_empty=(i < n_pre and i % 10 == 3), force_dp=(i < n_pre and i % 10 == 7),
-                               force_ne=(i < n_pre and i % 10 == 5), force_idx=(i < n_pre and i % 10 == 9))
+                               force_ne=(i < n_pre and i % 10 == 5), force_idx=(i < n_pre and i % 10 == 9), force_kr=(i < n_pre and i % 20 == 1))
             texts = operand_texts(rng)
             mirrored = None
             for v in encode.variants_of(isa, 'amb'):
@@ -455,7 +478,11 @@ class C13(core.Check):
                 dp = os_.get('disallowed_pairs')
                 if dp and len(dp[0]) == 2 and dp[0][0] != dp[0][1] and os_['list'][0] == os_['list'][1]:
                     mirrored = (os_['list'][0], dp[0])
-            if self._idx and rng.random() < 0.8:
+            if self._kr and rng.random() < 0.8:
+                w_ = rng.choice(sorted(KEYS))
+                operands = [{'cls': 'word', 'w': w_, 'e': LABELS.get(w_), 'text': w_}]
+                mirror_case = False
+            elif self._idx and rng.random() < 0.8:
                 lab_ = rng.choice(sorted(LABELS))
                 sp_ = rng.choice(['', ' '])
                 operands = [{'cls': 'idx', 'r': 'b', 'e': LABELS[lab_], 'text': f'b{sp_}+{sp_}{lab_}', 'lab': lab_}]
@@ -581,6 +608,10 @@ class C13(core.Check):
                         tags.add('amb:index-key-vs-index-expression')
             if 'reject:constraint' in tags and len(acc) >= 2 and any(o.get('big') for o in operands):
                 tags.add('amb:out-of-range-literal-with-later-accepting-candidate')
+            if kind == 'ACCEPT' and any(o['cls'] == 'dind' for o in operands):
+                tags.add('chosen:decorated-bracketed-register')
+                if any(o['cls'] == 'dind' and o['dec'][1] for o in operands):
+                    tags.add('chosen:decorated-bracketed-register/decorator-in-front')
             if kind == 'ACCEPT' and any(o['cls'] == 'dreg' for o in operands):
                 tags.add('amb:decorated-register-vs-numeric')
             if kind == 'REJECT':
